@@ -1,17 +1,388 @@
 /-
 C19 — enthalpy methods recover the enthalpy built into consistent synthetic data.
-(stub; theorems are being added)
+
+Statements are about the *generated* pieces of characterisation/isosteric_enth.py and enth_sorp_whittaker.py
+(`PgVerif.Gen.CharR.isosteric_enthalpy`, `isosteric_inv_t`, `whit_*`), the generated model equations
+(`PgVerif.Gen.R.Langmuir_loading`, `Langmuir_pressure`, `Toth_loading`, `DSLangmuir_loading`) and the hand-written model of
+`scipy.stats.linregress` (`PgVerif.Model.Linear.ols`, run against the real code by the harness).
+
+`Rgas` is the literal of the generated text, `207861565453831 / 25000000000000` (= 8.31446261815324 J/mol/K).
+
+Sections
+  A. least squares on arbitrary (unordered, unevenly spaced) abscissae is exact on affine data,
+  B. Clausius-Clapeyron analysis recovers the van 't Hoff enthalpy `dH` (any number ≥ 2 of temperatures, any order, any spacing,
+     any common pressure unit), instantiated for the library's own Langmuir / Toth / dual-site Langmuir equations,
+  C. Whittaker closed form  λ + ΔH_vap + RT  for Toth and Langmuir,
+  D. non-vacuity examples.
 -/
 import PgVerif.Gen.CharR
+import PgVerif.Gen.ModelsR
 import PgVerif.Model.Linear
+import Mathlib.Tactic
 
 namespace PgVerif.Props.C19
-open PgVerif.Gen.CharR
+open PgVerif.Gen.CharR PgVerif.Gen.R PgVerif.Model.Linear
+
+/-- the gas constant exactly as it appears in the generated text -/
+local notation "Rgas" => ((207861565453831 : ℝ) / (25000000000000 : ℝ))
+
+/-! ### helper facts (not properties) -/
+
+private lemma sum_cons' (x : ℝ) (xs : List ℝ) : sum (x :: xs) = x + sum xs := rfl
+
+private lemma sum_map_affine (a b : ℝ) (xs : List ℝ) :
+    sum (xs.map (fun x => a * x + b)) = a * sum xs + b * (xs.length : ℝ) := by
+  induction xs with
+  | nil => simp [sum]
+  | cons x xs ih =>
+    simp only [List.map_cons, sum_cons', ih, List.length_cons]
+    push_cast; ring
+
+private lemma sum_map_const_mul (a : ℝ) (g : ℝ → ℝ) (xs : List ℝ) :
+    sum (xs.map (fun x => a * g x)) = a * sum (xs.map g) := by
+  induction xs with
+  | nil => simp [sum]
+  | cons x xs ih =>
+    simp only [List.map_cons, sum_cons', ih]; ring
+
+private lemma zipWith_self_map (g : ℝ → ℝ → ℝ) (f : ℝ → ℝ) (xs : List ℝ) :
+    List.zipWith g xs (xs.map f) = xs.map (fun x => g x (f x)) := by
+  induction xs with
+  | nil => rfl
+  | cons x xs ih => simp [ih]
+
+private lemma zipWith_self' (g : ℝ → ℝ → ℝ) (xs : List ℝ) :
+    List.zipWith g xs xs = xs.map (fun x => g x x) := by
+  induction xs with
+  | nil => rfl
+  | cons x xs ih => simp
+
+private lemma sum_sq_nonneg (m : ℝ) (xs : List ℝ) :
+    0 ≤ sum (xs.map (fun x => (x - m) * (x - m))) := by
+  induction xs with
+  | nil => simp [sum]
+  | cons x xs ih =>
+    simp only [List.map_cons, sum_cons']
+    nlinarith [mul_self_nonneg (x - m)]
+
+private lemma sum_sq_pos (m : ℝ) (xs : List ℝ) (h : ∃ x ∈ xs, x ≠ m) :
+    0 < sum (xs.map (fun x => (x - m) * (x - m))) := by
+  induction xs with
+  | nil => obtain ⟨x, hx, _⟩ := h; simp at hx
+  | cons y ys ih =>
+    simp only [List.map_cons, sum_cons']
+    obtain ⟨x, hx, hne⟩ := h
+    rcases List.mem_cons.mp hx with rfl | hx'
+    · have h1 : 0 < (x - m) * (x - m) := mul_self_pos.mpr (sub_ne_zero.mpr hne)
+      have h2 := sum_sq_nonneg m ys
+      linarith
+    · have h1 : 0 ≤ (y - m) * (y - m) := mul_self_nonneg _
+      have h2 := ih ⟨x, hx', hne⟩
+      linarith
+
+/-- `sxy xs xs = Σ (x - x̄)²` -/
+private lemma sxy_self (xs : List ℝ) :
+    sxy xs xs = sum (xs.map (fun x => (x - mean xs) * (x - mean xs))) := by
+  unfold sxy
+  rw [zipWith_self']
+
+private lemma sxy_self_pos (xs : List ℝ) (h : ∃ x ∈ xs, ∃ x' ∈ xs, x ≠ x') : 0 < sxy xs xs := by
+  rw [sxy_self]
+  apply sum_sq_pos
+  obtain ⟨x, hx, x', hx', hne⟩ := h
+  by_cases hm : x = mean xs
+  · exact ⟨x', hx', fun h' => hne (hm.trans h'.symm)⟩
+  · exact ⟨x, hx, hm⟩
+
+private lemma mean_map_affine (a b : ℝ) (xs : List ℝ) (hne : xs ≠ []) :
+    mean (xs.map (fun x => a * x + b)) = a * mean xs + b := by
+  unfold mean
+  rw [sum_map_affine, List.length_map]
+  have hl : (xs.length : ℝ) ≠ 0 := by
+    have : xs.length ≠ 0 := fun h => hne (List.length_eq_zero_iff.mp h)
+    exact_mod_cast this
+  field_simp
+
+private lemma sxy_map_affine (a b : ℝ) (xs : List ℝ) (hne : xs ≠ []) :
+    sxy xs (xs.map (fun x => a * x + b)) = a * sxy xs xs := by
+  rw [sxy_self]
+  unfold sxy
+  rw [zipWith_self_map, mean_map_affine a b xs hne, ← sum_map_const_mul]
+  congr 1
+  apply List.map_congr_left
+  intro x _
+  ring
+
+/-! ### A. least squares on arbitrary abscissae -/
+
+/-- Ordinary least squares (the `linregress` model) is exact on affine data `y = a x + b` as soon as two abscissae differ:
+no ordering, spacing or count assumption (beyond the two different values). The guard excludes the `0/0` slope of the
+degenerate (all abscissae equal) case, which Lean would totalise to `0`. -/
+theorem ols_exact_distinct (a b : ℝ) (xs ys : List ℝ)
+    (hys : ys = xs.map (fun x => a * x + b))
+    (hd : ∃ x ∈ xs, ∃ x' ∈ xs, x ≠ x') :
+    ols xs ys = (a, b) := by
+  subst hys
+  have hne : xs ≠ [] := by
+    rintro rfl
+    obtain ⟨x, hx, _⟩ := hd
+    simp at hx
+  have hpos := sxy_self_pos xs hd
+  unfold ols
+  simp only
+  rw [sxy_map_affine a b xs hne, mean_map_affine a b xs hne]
+  have hs : a * sxy xs xs / sxy xs xs = a := by field_simp
+  rw [hs]
+  ext <;> simp
+
+/-! ### B. Clausius-Clapeyron recovery -/
+
+private lemma inv_t_distinct (Ts : List ℝ) (hpos : ∀ T ∈ Ts, 0 < T)
+    (hd : ∃ T ∈ Ts, ∃ T' ∈ Ts, T ≠ T') :
+    ∃ x ∈ Ts.map isosteric_inv_t, ∃ x' ∈ Ts.map isosteric_inv_t, x ≠ x' := by
+  obtain ⟨T, hT, T', hT', hne⟩ := hd
+  refine ⟨isosteric_inv_t T, List.mem_map_of_mem hT, isosteric_inv_t T', List.mem_map_of_mem hT', ?_⟩
+  unfold isosteric_inv_t
+  have h1 := (hpos T hT).ne'
+  have h2 := (hpos T' hT').ne'
+  intro h
+  apply hne
+  field_simp at h
+  exact h.symm
 
 /-- slope-to-enthalpy factor: a Clausius-Clapeyron slope `-dH*1000/R` gives back `dH` (kJ/mol) -/
 theorem isosteric_enthalpy_of_slope (dH : ℝ) :
-    isosteric_enthalpy (-(dH * 1000) / (207861565453831 / 25000000000000)) = dH := by
+    isosteric_enthalpy (-(dH * 1000) / Rgas) = dH := by
   unfold isosteric_enthalpy
   field_simp
+
+/-- Isosteric analysis at one loading: if the log-pressures follow the van 't Hoff law `ln p = c − dH/(R T)` (dH in kJ/mol)
+at the temperatures `Ts` (all positive, at least two different; any number, order and spacing), the regression slope over
+`1/T` converted by the code's formula is exactly `dH`. -/
+theorem isosteric_recovers (c dH : ℝ) (Ts logp : List ℝ)
+    (hpos : ∀ T ∈ Ts, 0 < T)
+    (hd : ∃ T ∈ Ts, ∃ T' ∈ Ts, T ≠ T')
+    (hlogp : logp = Ts.map (fun T => c - dH * 1000 / (Rgas * T))) :
+    isosteric_enthalpy (ols (Ts.map isosteric_inv_t) logp).1 = dH := by
+  have hmap : logp = (Ts.map isosteric_inv_t).map (fun x => (-(dH * 1000) / Rgas) * x + c) := by
+    rw [hlogp, List.map_map]
+    apply List.map_congr_left
+    intro T hT
+    have hT0 := (hpos T hT).ne'
+    simp only [Function.comp, isosteric_inv_t]
+    field_simp
+    ring
+  rw [ols_exact_distinct _ c _ _ hmap (inv_t_distinct Ts hpos hd)]
+  exact isosteric_enthalpy_of_slope dH
+
+private lemma log_vant_hoff (u K0 E : ℝ) (hu : 0 < u) (hK0 : 0 < K0) :
+    Real.log (u / (K0 * Real.exp E)) = (Real.log u - Real.log K0) - E := by
+  rw [Real.log_div hu.ne' (by positivity), Real.log_mul hK0.ne' (Real.exp_pos E).ne', Real.log_exp]
+  ring
+
+/-- General generator statement.  For an affinity-scaled family (loading at temperature `T` is `F (K T * p)` with
+`K T = K0 * exp (dH*1000/(R T))`, `K0 > 0`) the pressure giving the loading `n = F u` (`u > 0` the reduced pressure) is
+`u / K T`; the isosteric enthalpy computed from those pressures is `dH`, whatever `u` (i.e. at every loading) and
+whatever the positive temperatures (two of them different).  `u > 0`, `K0 > 0` exclude `Real.log 0`. -/
+theorem vant_hoff_family (u K0 dH : ℝ) (Ts ps : List ℝ)
+    (hu : 0 < u) (hK0 : 0 < K0)
+    (hpos : ∀ T ∈ Ts, 0 < T)
+    (hd : ∃ T ∈ Ts, ∃ T' ∈ Ts, T ≠ T')
+    (hps : ps = Ts.map (fun T => u / (K0 * Real.exp (dH * 1000 / (Rgas * T))))) :
+    isosteric_enthalpy (ols (Ts.map isosteric_inv_t) (ps.map Real.log)).1 = dH := by
+  apply isosteric_recovers (Real.log u - Real.log K0) dH Ts _ hpos hd
+  rw [hps, List.map_map]
+  apply List.map_congr_left
+  intro T _
+  simp only [Function.comp]
+  exact log_vant_hoff u K0 _ hu hK0
+
+/-- Pressure-unit invariance: multiplying every pressure by the same positive constant `k` (a change of pressure unit)
+does not change the result.  (A change of *loading* unit or basis only relabels the loading `n` at which the analysis is
+made — it changes `u`, which is universally quantified here and in `vant_hoff_family` — so the result is invariant under
+it as well.) -/
+theorem unit_invariance (k u K0 dH : ℝ) (Ts ps ps' : List ℝ)
+    (hk : 0 < k) (hu : 0 < u) (hK0 : 0 < K0)
+    (hpos : ∀ T ∈ Ts, 0 < T)
+    (hd : ∃ T ∈ Ts, ∃ T' ∈ Ts, T ≠ T')
+    (hps : ps = Ts.map (fun T => u / (K0 * Real.exp (dH * 1000 / (Rgas * T)))))
+    (hps' : ps' = ps.map (k * ·)) :
+    isosteric_enthalpy (ols (Ts.map isosteric_inv_t) (ps'.map Real.log)).1 = dH ∧
+    isosteric_enthalpy (ols (Ts.map isosteric_inv_t) (ps'.map Real.log)).1
+      = isosteric_enthalpy (ols (Ts.map isosteric_inv_t) (ps.map Real.log)).1 := by
+  have h1 : isosteric_enthalpy (ols (Ts.map isosteric_inv_t) (ps'.map Real.log)).1 = dH := by
+    apply vant_hoff_family (k * u) K0 dH Ts ps' (by positivity) hK0 hpos hd
+    rw [hps', hps, List.map_map]
+    apply List.map_congr_left
+    intro T _
+    simp only [Function.comp]
+    ring
+  exact ⟨h1, h1.trans (vant_hoff_family u K0 dH Ts ps hu hK0 hpos hd hps).symm⟩
+
+/-- If the loading at temperature `T` is `F (K T * p)`, `F` is injective on the positive reals, and the measured pressures
+`p T` all give the same loading `F u` (`u > 0`), then `p T = u / K T`: the hypothesis `hps` of `vant_hoff_family`
+follows from the "same loading" condition, so the isosteric enthalpy of such a family is `dH`. -/
+theorem affinity_scaled_isosteric (F : ℝ → ℝ) (hF : Set.InjOn F (Set.Ioi 0))
+    (u K0 dH : ℝ) (Ts : List ℝ) (p : ℝ → ℝ)
+    (hu : 0 < u) (hK0 : 0 < K0)
+    (hpos : ∀ T ∈ Ts, 0 < T)
+    (hd : ∃ T ∈ Ts, ∃ T' ∈ Ts, T ≠ T')
+    (hp : ∀ T ∈ Ts, 0 < p T)
+    (hiso : ∀ T ∈ Ts, F (K0 * Real.exp (dH * 1000 / (Rgas * T)) * p T) = F u) :
+    isosteric_enthalpy (ols (Ts.map isosteric_inv_t) ((Ts.map p).map Real.log)).1 = dH := by
+  apply vant_hoff_family u K0 dH Ts (Ts.map p) hu hK0 hpos hd
+  apply List.map_congr_left
+  intro T hT
+  have hK : 0 < K0 * Real.exp (dH * 1000 / (Rgas * T)) := by positivity
+  have := hF (Set.mem_Ioi.mpr (mul_pos hK (hp T hT))) (Set.mem_Ioi.mpr hu) (hiso T hT)
+  rw [← this]
+  field_simp
+
+/-! #### the library's own model equations are affinity-scaled -/
+
+/-- `Langmuir_loading` depends on `K` and `p` only through `K * p`. -/
+theorem langmuir_is_affinity_scaled (K n_m p : ℝ) :
+    Langmuir_loading K n_m p = (fun u => n_m * u / (1 + u)) (K * p) := by
+  unfold Langmuir_loading
+  rfl
+
+/-- `Toth_loading` depends on `K` and `p` only through `K * p`. -/
+theorem toth_is_affinity_scaled (n_m K t p : ℝ) :
+    Toth_loading n_m K t p = (fun u => n_m * u / (1 + u ^ t) ^ (1 / t)) (K * p) := by
+  unfold Toth_loading
+  simp only [Real.rpow_eq_pow]
+
+/-- dual-site Langmuir with both site constants scaled by the same factor `s` (both sites share the enthalpy):
+the loading is a function of `s * p`. -/
+theorem dslangmuir_is_affinity_scaled (n_m1 k1 n_m2 k2 s p : ℝ) :
+    DSLangmuir_loading n_m1 (s * k1) n_m2 (s * k2) p
+      = (fun u => n_m1 * (k1 * u) / (1 + k1 * u) + n_m2 * (k2 * u) / (1 + k2 * u)) (s * p) := by
+  unfold DSLangmuir_loading
+  simp only
+  have e1 : s * k1 * p = k1 * (s * p) := by ring
+  have e2 : s * k2 * p = k2 * (s * p) := by ring
+  rw [e1, e2]
+
+/-- Isosteric analysis of Langmuir isotherms generated with `K T = K0 exp(dH/(R T))`, using the library's own inverse
+`Langmuir_pressure` to read the pressure at the loading `n` (`0 < n < n_m`, inside the range of the model): `dH` is
+recovered at every such loading. -/
+theorem langmuir_isosteric (K0 dH n_m n : ℝ) (Ts ps : List ℝ)
+    (hK0 : 0 < K0) (hn : 0 < n) (hsat : n < n_m)
+    (hpos : ∀ T ∈ Ts, 0 < T)
+    (hd : ∃ T ∈ Ts, ∃ T' ∈ Ts, T ≠ T')
+    (hps : ps = Ts.map (fun T => Langmuir_pressure (K0 * Real.exp (dH * 1000 / (Rgas * T))) n_m n)) :
+    isosteric_enthalpy (ols (Ts.map isosteric_inv_t) (ps.map Real.log)).1 = dH := by
+  have hnm : 0 < n_m - n := by linarith
+  apply vant_hoff_family (n / (n_m - n)) K0 dH Ts ps (by positivity) hK0 hpos hd
+  rw [hps]
+  apply List.map_congr_left
+  intro T _
+  unfold Langmuir_pressure
+  have hK : 0 < K0 * Real.exp (dH * 1000 / (Rgas * T)) := by positivity
+  field_simp
+
+/-! ### C. Whittaker closed form -/
+
+/-- `p_sat / b^(1/t)` with `b = 1/K^t` is `p_sat * K` (`K > 0` so that the real powers are the genuine ones, `t ≠ 0`
+excludes `1/0`). -/
+theorem whittaker_first_bracket (p_sat K t : ℝ) (hK : 0 < K) (ht : t ≠ 0) :
+    whit_first_bracket p_sat (whit_b K t) t = p_sat * K := by
+  unfold whit_first_bracket whit_b
+  simp only [Real.rpow_eq_pow]
+  have h1 : (1 / K ^ t) ^ (1 / t) = 1 / K := by
+    rw [Real.div_rpow zero_le_one (Real.rpow_nonneg hK.le t), Real.one_rpow, ← Real.rpow_mul hK.le,
+      mul_one_div_cancel ht, Real.rpow_one]
+  rw [h1]
+  field_simp
+
+/-- the argument of the logarithm in the Whittaker formula is positive under the guards (so the closed form below is not
+an artefact of `Real.log` of a non-positive number) -/
+lemma whittaker_log_arg_pos (p_sat K t n n_m : ℝ)
+    (hK : 0 < K) (ht : 0 < t) (hp : 0 < p_sat) (hn : 0 < n) (hsat : n < n_m) :
+    0 < (n / n_m) ^ t / (1 - (n / n_m) ^ t) ∧
+    0 < p_sat * K * ((n / n_m) ^ t / (1 - (n / n_m) ^ t)) ^ ((t - 1) / t) := by
+  have hnm : 0 < n_m := hn.trans hsat
+  have hθ0 : 0 < n / n_m := div_pos hn hnm
+  have hθ1 : n / n_m < 1 := (div_lt_one hnm).mpr hsat
+  have h1 : 0 < (n / n_m) ^ t := Real.rpow_pos_of_pos hθ0 t
+  have h2 : (n / n_m) ^ t < 1 := Real.rpow_lt_one hθ0.le hθ1 ht
+  have h3 : 0 < (n / n_m) ^ t / (1 - (n / n_m) ^ t) := div_pos h1 (by linarith)
+  exact ⟨h3, mul_pos (mul_pos hp hK) (Real.rpow_pos_of_pos h3 _)⟩
+
+/-- Whittaker enthalpy for a Toth description, chained exactly as `enthalpy_sorption_whittaker_raw` does:
+the result is `λ + ΔH_vap + RT` in kJ/mol with `λ = RT ln(p_sat K (θ^t/(1−θ^t))^((t−1)/t))`. -/
+theorem whittaker_closed_form (T K t p_sat n n_m h_vap : ℝ)
+    (hK : 0 < K) (ht : 0 < t) (_hp : 0 < p_sat) (_hn : 0 < n) (_hsat : n < n_m) :
+    whit_out (whit_h_st
+        (whit_d_lambda (whit_RT T) (whit_first_bracket p_sat (whit_b K t) t)
+          (whit_second_bracket (whit_theta_t (whit_theta n n_m) t) t))
+        h_vap (whit_RT T))
+      = (Rgas * T * Real.log (p_sat * K * ((n / n_m) ^ t / (1 - (n / n_m) ^ t)) ^ ((t - 1) / t))
+          + h_vap + Rgas * T) / 1000 := by
+  rw [whittaker_first_bracket p_sat K t hK ht.ne']
+  unfold whit_out whit_h_st whit_d_lambda whit_RT whit_second_bracket whit_theta_t whit_theta
+  simp only [Real.rpow_eq_pow]
+
+/-- Langmuir (`t = 1`): the Whittaker enthalpy does not depend on the loading. -/
+theorem whittaker_langmuir (T K p_sat n n_m h_vap : ℝ)
+    (hK : 0 < K) (_hp : 0 < p_sat) (_hn : 0 < n) (_hsat : n < n_m) :
+    whit_out (whit_h_st
+        (whit_d_lambda (whit_RT T) (whit_first_bracket p_sat (whit_b K 1) 1)
+          (whit_second_bracket (whit_theta_t (whit_theta n n_m) 1) 1))
+        h_vap (whit_RT T))
+      = (Rgas * T * Real.log (p_sat * K) + h_vap + Rgas * T) / 1000 := by
+  rw [whittaker_closed_form T K 1 p_sat n n_m h_vap hK one_pos _hp _hn _hsat]
+  simp
+
+/-- Toth: `λ = RT (ln(p_sat K) + ((t−1)/t) ln(θ^t/(1−θ^t)))`. -/
+theorem whittaker_lambda_split (T K t p_sat n n_m : ℝ)
+    (hK : 0 < K) (ht : 0 < t) (hp : 0 < p_sat) (hn : 0 < n) (hsat : n < n_m) :
+    whit_d_lambda (whit_RT T) (whit_first_bracket p_sat (whit_b K t) t)
+        (whit_second_bracket (whit_theta_t (whit_theta n n_m) t) t)
+      = Rgas * T * (Real.log (p_sat * K)
+          + ((t - 1) / t) * Real.log ((n / n_m) ^ t / (1 - (n / n_m) ^ t))) := by
+  obtain ⟨h3, _⟩ := whittaker_log_arg_pos p_sat K t n n_m hK ht hp hn hsat
+  rw [whittaker_first_bracket p_sat K t hK ht.ne']
+  unfold whit_d_lambda whit_RT whit_second_bracket whit_theta_t whit_theta
+  simp only [Real.rpow_eq_pow]
+  rw [Real.log_mul (mul_pos hp hK).ne' (Real.rpow_pos_of_pos h3 _).ne', Real.log_rpow h3]
+
+/-! ### D. non-vacuity: the hypotheses are satisfiable -/
+
+/-- NON-VACUITY: three temperatures, unordered and unevenly spaced, satisfy the hypotheses of `isosteric_recovers`. -/
+example : (∀ T ∈ ([300, 250, 350] : List ℝ), 0 < T) ∧
+    (∃ T ∈ ([300, 250, 350] : List ℝ), ∃ T' ∈ ([300, 250, 350] : List ℝ), T ≠ T') := by
+  refine ⟨?_, 300, by simp, 250, by simp, by norm_num⟩
+  intro T hT
+  simp only [List.mem_cons, List.not_mem_nil, or_false] at hT
+  rcases hT with rfl | rfl | rfl <;> norm_num
+
+/-- NON-VACUITY: `isosteric_recovers` applied to concrete unordered temperatures. -/
+example (c dH : ℝ) :
+    isosteric_enthalpy (ols (([300, 250, 350] : List ℝ).map isosteric_inv_t)
+      (([300, 250, 350] : List ℝ).map (fun T => c - dH * 1000 / (Rgas * T)))).1 = dH := by
+  apply isosteric_recovers c dH [300, 250, 350] _ _ ⟨300, by simp, 250, by simp, by norm_num⟩ rfl
+  intro T hT
+  simp only [List.mem_cons, List.not_mem_nil, or_false] at hT
+  rcases hT with rfl | rfl | rfl <;> norm_num
+
+/-- NON-VACUITY: `langmuir_isosteric` at `K0 = 1/1000`, `dH = 20` kJ/mol, half coverage. -/
+example :
+    isosteric_enthalpy (ols (([300, 250, 350] : List ℝ).map isosteric_inv_t)
+      ((([300, 250, 350] : List ℝ).map
+        (fun T => Langmuir_pressure ((1 / 1000) * Real.exp (20 * 1000 / (Rgas * T))) 2 1)).map Real.log)).1 = 20 := by
+  apply langmuir_isosteric (1 / 1000) 20 2 1 [300, 250, 350] _ (by norm_num) one_pos (by norm_num) _
+    ⟨300, by simp, 250, by simp, by norm_num⟩ rfl
+  intro T hT
+  simp only [List.mem_cons, List.not_mem_nil, or_false] at hT
+  rcases hT with rfl | rfl | rfl <;> norm_num
+
+/-- NON-VACUITY: the guards of `whittaker_closed_form` / `whittaker_lambda_split` are satisfiable
+(`K = 2`, `t = 1/2`, `p_sat = 100`, `n = 1`, `n_m = 3`). -/
+example : (0 : ℝ) < 2 ∧ (0 : ℝ) < 1 / 2 ∧ (0 : ℝ) < 100 ∧ (0 : ℝ) < 1 ∧ (1 : ℝ) < 3 := by norm_num
+
+/-- NON-VACUITY: the hypothesis of `ols_exact_distinct` on a concrete unordered list, and its conclusion. -/
+example : ols ([3, 1, 2] : List ℝ) (([3, 1, 2] : List ℝ).map (fun x => 5 * x + 7)) = (5, 7) :=
+  ols_exact_distinct 5 7 _ _ rfl ⟨3, by simp, 1, by simp, by norm_num⟩
 
 end PgVerif.Props.C19
